@@ -8,7 +8,7 @@ from num_common import user_f, calls, F1, F2
 
 SRCS = ['Special_Functions.cpp', 'Statistics.cpp', 'Numerics.cpp', 'Integration.cpp', 'Linear_Algebra.cpp', 'Utilities.cpp']
 NATIVE_SRCS = ['Numerics.cpp', 'Special_Functions.cpp', 'Utilities.cpp', 'Linear_Algebra.cpp', 'Integration.cpp', 'Statistics.cpp', 'Natural_Units.cpp']
-KEEP = ['verif_sf', 'verif_sf_seq', 'verif_vsh', 'verif_factorial_table', 'verif_factorial_table_set', 'verif_likelihood_binned', 'verif_chibar', 'verif_sample', 'verif_rejection2d', 'verif_metropolis', 'verif_metropolis2d', 'verif_stats']
+KEEP = ['verif_sf', 'verif_sf_seq', 'verif_vsh_vec', 'verif_vsh', 'verif_factorial_table', 'verif_factorial_table_set', 'verif_likelihood_binned', 'verif_chibar', 'verif_sample', 'verif_rejection2d', 'verif_metropolis', 'verif_metropolis2d', 'verif_stats']
 G = {}
 def module(ctx):
     if 'm' not in G: G['m'] = ctx.lower(SRCS, 'SF.cpp', KEEP)
